@@ -31,6 +31,11 @@ pub struct ServerProfile {
     /// raw frames sent right before the licensing PDU (hostile / unusual servers: auto-detect requests, heartbeats ...)
     #[serde(default)]
     pub pre_license: Vec<Vec<u8>>,
+    /// data PDUs a client has to ignore, sent in front of the server's finalization PDUs: bit k (0..3) = in front of synchronize /
+    /// control-cooperate / control-granted / font-map; bits 4-5 = what: 0 Set Error Info (ERRINFO_NONE) in a frame of its own,
+    /// 1 the same in the MCS frame of the reply, 2 Save Session Info in a frame of its own, 3 both kinds
+    #[serde(default)]
+    pub finalization_noise: u8,
 }
 
 impl ServerProfile {
@@ -60,6 +65,7 @@ impl ServerProfile {
             post_activation: Vec::new(),
             pack_deactivate: 0,
             pre_license: Vec::new(),
+            finalization_noise: 0,
         }
     }
 }
@@ -472,25 +478,62 @@ impl Server {
                         if let Phase::Activation(st) = phase {
                             let sid = self.current_share();
                             let su = self.profile.server_user;
+                            let noise = self.profile.finalization_noise;
+                            // the reply of this stage, with the ignorable PDUs the profile asks for in front of it
+                            let reply = |me: &mut Server, out: &mut Vec<OutMsg>, name: &'static str, pdu: Built| {
+                                let wanted = (1..=4).contains(&st) && noise & (1 << (st - 1)) != 0;
+                                if !wanted {
+                                    let f = me.wrap(&pdu);
+                                    me.emit(out, name, f);
+                                    return;
+                                }
+                                let sei = wire::set_error_info(sid, su, 0);
+                                let ssi = wire::other_data_pdu(sid, su, 0x26, &[0, 0, 0, 0, 0, 0, 0, 0]);
+                                match (noise >> 4) & 3 {
+                                    0 => {
+                                        let f = me.wrap(&sei);
+                                        me.emit(out, "ignorable", f);
+                                        let f = me.wrap(&pdu);
+                                        me.emit(out, name, f);
+                                    }
+                                    1 => {
+                                        let mut frame = Built::new();
+                                        frame.nest("sei", &sei);
+                                        frame.nest("reply", &pdu);
+                                        let f = me.wrap(&frame);
+                                        me.emit(out, name, f);
+                                    }
+                                    2 => {
+                                        let f = me.wrap(&ssi);
+                                        me.emit(out, "ignorable", f);
+                                        let f = me.wrap(&pdu);
+                                        me.emit(out, name, f);
+                                    }
+                                    _ => {
+                                        let f = me.wrap(&sei);
+                                        me.emit(out, "ignorable", f);
+                                        let f = me.wrap(&ssi);
+                                        me.emit(out, "ignorable", f);
+                                        let f = me.wrap(&pdu);
+                                        me.emit(out, name, f);
+                                    }
+                                }
+                            };
                             let expected = match (st, &body) {
                                 (1, DataBody::Synchronize { message_type: 1, .. }) => {
-                                    let f = self.wrap(&wire::synchronize(sid, su, self.profile.user_id));
-                                    self.emit(out, "synchronize", f);
+                                    reply(self, out, "synchronize", wire::synchronize(sid, su, self.profile.user_id));
                                     true
                                 }
                                 (2, DataBody::Control { action: 4, .. }) => {
-                                    let f = self.wrap(&wire::control(sid, su, 4, 0, 0));
-                                    self.emit(out, "control-cooperate", f);
+                                    reply(self, out, "control-cooperate", wire::control(sid, su, 4, 0, 0));
                                     true
                                 }
                                 (3, DataBody::Control { action: 1, .. }) => {
-                                    let f = self.wrap(&wire::control(sid, su, 2, self.profile.user_id, 0x03EA));
-                                    self.emit(out, "control-granted", f);
+                                    reply(self, out, "control-granted", wire::control(sid, su, 2, self.profile.user_id, 0x03EA));
                                     true
                                 }
                                 (4, DataBody::FontList { .. }) => {
-                                    let f = self.wrap(&wire::font_map(sid, su));
-                                    self.emit(out, "font-map", f);
+                                    reply(self, out, "font-map", wire::font_map(sid, su));
                                     true
                                 }
                                 _ => false,
